@@ -239,7 +239,9 @@ pub fn run(outdir: &Path, tier: &str, seed: u64, shards: usize, replay: Option<S
         programs.push((serde_json::from_value(v["case"]["program"].clone()).unwrap(), v["case"]["expect_ok"].as_bool().unwrap_or(false)));
     } else {
         for p in crate::c01dir::directed() {
-            programs.push((p, true));
+            // one directed program is outside the supported subset on purpose (no __typename on the interface selection)
+            let supported = !p.tags.iter().any(|t| t == "rejected-by-design");
+            programs.push((p, supported));
         }
         for (i, p) in crate::c04dir::directed().into_iter().enumerate() {
             if i % 4 == 0 || i > 21 {
@@ -263,7 +265,8 @@ pub fn run(outdir: &Path, tier: &str, seed: u64, shards: usize, replay: Option<S
             p.opts.variables_derives = Some("Debug, Clone, PartialEq, Deserialize".into());
             p.opts.custom_scalars_module = Some("crate::scalars".into());
             p.opts.visibility = Some("crate".into());
-            programs.push((p, true));
+            let supported = programs[i].1;
+            programs.push((p, supported));
         }
         while programs.len() < nprog {
             let p = progs::gen_program(&mut rng);
